@@ -307,6 +307,19 @@ pub struct Scenario {
     pub cols: usize,
     pub rows: usize,
     pub commands: Vec<String>,
+    /// property-specific operations executed after the first resize (on the alternate screen when
+    /// one was entered)
+    pub mid: Vec<String>,
+}
+
+pub fn scenario_mid(prop: &str) -> Vec<String> {
+    let v: &[&str] = match prop {
+        "C18" => &["", "\x1b[3g", "\x1b[9G\x1b[g", "\x1b[5G\x1bH", "\x1b[8G\x1b[2W"],
+        "C17" => &["", "\x1b[3;3H\x1b[7m\x1b7", "\x1b[!p", "\x1b[?1048h"],
+        "C04" => &["", "\x1b(0", "\x1b[4h"],
+        _ => &[""],
+    };
+    v.iter().map(|s| s.to_string()).collect()
 }
 
 impl Scenario {
@@ -318,7 +331,7 @@ impl Scenario {
     const LEAVE: usize = 3;
 
     pub fn count(&self) -> usize {
-        Self::PRE * Self::ENTER * Self::RESIZE * Self::STBM * Self::ORIGIN * Self::LEAVE * Self::RESIZE * self.commands.len()
+        Self::PRE * Self::ENTER * Self::RESIZE * Self::STBM * Self::ORIGIN * Self::LEAVE * Self::RESIZE * self.commands.len() * self.mid.len()
     }
 
     fn resize(&self, k: usize, c: usize, r: usize) -> Option<(usize, usize)> {
@@ -337,6 +350,7 @@ impl Scenario {
             v
         };
         let cmd = self.commands[take(self.commands.len())].clone();
+        let mid = self.mid[take(self.mid.len())].clone();
         let rs2 = take(Self::RESIZE);
         let leave = take(Self::LEAVE);
         let origin = take(Self::ORIGIN);
@@ -361,6 +375,7 @@ impl Scenario {
             c = c2;
             r = r2;
         }
+        s.push_str(&mid);
         match stbm {
             1 if r >= 3 => s.push_str("\x1b[2;3r"),
             2 if r >= 2 => s.push_str(&format!("\x1b[1;{}r", r - 1)),
